@@ -199,6 +199,12 @@ def header_reader_rule(prog, res, rule='header-read', int_scale_ok=False):
     first = ios[0] if ios else None
     if not first or first.get('k') != 'readUint' or first.get('dest') != 'this._parametersAddress' or width_const(first) != 1 or \
             first.get('whence') != '0' or P.show(first.get('skip', {})) != '0':
+        seeks_first = [('slot', 'seek', Renderer(f).render(f.call_args(c_)[0]) if f.call_args(c_) else '?') for c_ in f.calls() if c_['callee']['name'] in ('seekg', 'seekp') and c_['k'] == 'CXXMemberCallExpr']
+        if seeks_first:
+            # the stream is positioned by an explicit seekg() before a plain read: where it seeks to is not tabulated by this rule
+            res.undecided(rule, 'header.word1.parameter_block', f.loc(), 'the header is read after an explicit seekg(%s): the absolute position of the first read is not tabulated in that form [shape not read by the rule]' % seeks_first[0][2],
+                          function=f.sig, expr='header.word1.parameter_block')
+            return
         res.viol(rule, 'header.word1.parameter_block', f.loc(), 'the header does not start by reading one unsigned byte at absolute offset 0 into _parametersAddress',
                  function=f.sig, expr='first-byte')
     else:
@@ -2211,6 +2217,7 @@ def parameters_writer_rule(prog, res, rule='parameters-write'):
     var = ck.slot_open('block_count', 1, cite=PL['block_count']['cite'])
     ck.w_object('processor', 1, vals=['84'], cite=PL['processor']['cite'])
     # groups: one record per position, id = -(i+1)
+    ds_var = ['local:dataStartPosition']      # the local handed to Group::write to receive the position of the DATA_START value (named by the call below)
     lp = ck.take(('loop',))
     if lp is None or pshow(lp[1]) != 'this._groups.size':
         ck.bad('groups', ck.where(lp), 'expected one group record per group, found %s' % describe(lp))
@@ -2245,12 +2252,15 @@ def parameters_writer_rule(prog, res, rule='parameters-write'):
         if okc:
             sub = inner[0][2]
             idv = id_of_position(f, lp, inner[0], sub.get('arg1'))
-            if sub.get('this') in elems and idv == 'ok' and sub.get('arg2') == 'local:dataStartPosition':
+            ds_ok = bool(re.match(r'^local:\w+(\.\w+)*$', str(sub.get('arg2'))))      # a local position (whatever its name) that receives the DATA_START slot
+            if ds_ok:
+                ds_var[0] = str(sub.get('arg2'))
+            if sub.get('this') in elems and idv == 'ok' and ds_ok:
                 ck.ok('groups', ck.where(lp), 'element i is written with id -(i+1) and the DATA_START position, for every position i: position i <-> id -(i+1)')
             elif sub.get('this') in elems and idv == 'skips':
                 ck.bad('groups', ck.where(lp), 'the id handed to Group::write (%s) comes from a counter that skipped positions do not advance: a group behind an unused id is written under the id of an earlier '
                        'position, and its parameters are attached to another group on the next load' % sub.get('arg1'))
-            elif sub.get('this') in elems and idv == 'unknown' and sub.get('arg2') == 'local:dataStartPosition':
+            elif sub.get('this') in elems and (idv == 'unknown' or (idv == 'ok' and not ds_ok)):
                 ck.shape('groups', ck.where(lp), 'the id handed to Group::write is %s, which the rule cannot relate to the position' % sub.get('arg1'))
             else:
                 ck.bad('groups', ck.where(lp), 'group records are written with %s; positions must map to ids -(i+1)' % {k: v for k, v in sub.items() if k != '#scope'})
@@ -2288,7 +2298,7 @@ def parameters_writer_rule(prog, res, rule='parameters-write'):
     p1 = None
     if var is not None:
         p1 = ck.slot_patch('block_count', var, 1)
-    p2 = ck.slot_patch('data_start', 'local:dataStartPosition', 2)
+    p2 = ck.slot_patch('data_start', ds_var[0], 2)
     _PATCHES[id(prog)] = {'block_count': (p1, 1), 'data_start': (p2, 2)}
     ck.done()
     # the DATA_START slot is opened by Parameter::write through the out parameter (checked there)
@@ -2458,7 +2468,9 @@ def data_offset_rule(prog, res, rule='data-offset'):
     seq = io_only(codec.Extractor(prog, 'r').seq_of(f))
     first = next((it for it in seq if it[0] == 'io'), None)
     want = '-512 + arg0._header._nbOfZerosBeforeHeader + 512*arg0._header._parametersAddress + 512*arg0._parameters._nbParamBlock'
-    if first is None or 'skip' not in first[1]:
+    if (first is None or 'skip' not in first[1]) and any(c_['callee']['name'] in ('seekg', 'seekp') and c_['k'] == 'CXXMemberCallExpr' for c_ in f.calls()):
+        res.undecided(rule, 'data.offset', f.loc(), 'the data reader positions the stream with an explicit seekg(): the offset is not tabulated in that form [shape not read by the rule]', function=f.sig, expr='data.offset')
+    elif first is None or 'skip' not in first[1]:
         res.viol(rule, 'data.offset', f.loc(), 'the data reader does not seek to the data section', function=f.sig, expr='data.offset')
         return
     d = first[1]
@@ -3795,10 +3807,9 @@ def byte_only_from_reader(prog):
         if v is None:
             if not f.implicit:
                 # a type the rule cannot read as a constant: in the reader (a table of types, a helper) nothing is shown either way
-                if f.qname == P_ + '::read':
-                    unread = True
-                    continue
-                return False
+                # (in a setter as well: the type may arrive as an argument of a shared helper - which constants it takes is not followed)
+                unread = True
+                continue
             continue
         if int(v) == 1 and f.qname != P_ + '::read':
             return False
@@ -3807,7 +3818,10 @@ def byte_only_from_reader(prog):
         if f.implicit:
             continue
         tw = [h.nodes[h.strip(r, 'all')].get('cv') for h, _, r in _c18.field_writes(prog, P_, '_data_type') if h is f and r is not None]
-        if not tw or any(t is None or int(t) == 1 for t in tw):
+        if tw and any(t is None for t in tw):
+            unread = True
+            continue
+        if not tw or any(int(t) == 1 for t in tw):
             return False
     return None if unread else True
 
